@@ -50,6 +50,13 @@ def handleTree (fs : List (List String)) : Option String :=
       | some ((gn, gd), (rn, rd)) => some s!"D {gn} {gd} {rn} {rd}"
       | none => some "ZERO"
     | _, _ => some "ERR"
+  | [["treedist"], ta, tb] =>
+    match parseTree ta, parseTree tb with
+    | some (a, []), some (b, []) =>
+      (match treeDist a b with
+       | some ((gn, gd), (rn, rd)) => some s!"D {gn} {gd} {rn} {rd}"
+       | none => some "ZERO")
+    | _, _ => some "bad-request"
   | _ => none
 
 end Verif.Driver
